@@ -15,6 +15,12 @@ Inductive c11case :=
 (* client.WriteAt through real client + server + sparse in-memory backend *)
 | CWrite (msize cs : N) (p : list N) (off : Z) (base : Z) (file0 : list N) (tape : list wans)
          (n : nat) (err : option cerr) (calls : list ocall) (wstart : Z) (window : list N) (size_after : Z)
+(* the same with msize >= 2201: buffers and files are given by generator parameters (byte i = (a*i + c + i/256) mod 256),
+   the model is compared at length level (tape = what the backend answered), the content is checked here *)
+| CBigW (msize cs : N) (a c lenp : N) (off : Z) (tape : list (N * option cerr)) (stored : N)
+        (n : N) (err : option cerr) (calls : list (N * N * Z)) (wstart : Z) (window : list N)
+| CBigR (msize cs : N) (a c lenp : N) (off base : Z) (fa fc flen : N) (tape : list (N * option cerr))
+        (n : N) (err : option cerr) (calls : list (N * N * Z)) (buf_after : list N)
 (* client.ReadAt *)
 | CRead (msize cs : N) (p0 : list N) (off : Z) (base : Z) (file0 : list N) (tape : list rans)
         (n : nat) (err : option cerr) (calls : list ocall) (buf_after : list N).
@@ -24,6 +30,14 @@ Definition rf_of_seg (base : Z) (l : list N) : rfile :=
   mkrf (if (length l =? 0)%nat then 0 else base + Z.of_nat (length l))%Z
        (fun i => if (i <? base)%Z then 0%N else nth (Z.to_nat (i - base)) l 0%N).
 
+(** the harness's byte pattern, built with an accumulator (long buffers) *)
+Fixpoint pattern_aux (a c : N) (i : N) (k : nat) (acc : list N) : list N :=
+  match k with
+  | O => acc
+  | S k' => pattern_aux a c (i + 1) k' (((a * i + c + i / 256) mod 256)%N :: acc)
+  end.
+Definition pattern (a c len : N) : list N := rev_append (pattern_aux a c 0 (N.to_nat len) []) [].
+
 Fixpoint list_eqb {A B} (eqb : A -> B -> bool) (a : list A) (b : list B) : bool :=
   match a, b with
   | [], [] => true
@@ -31,9 +45,10 @@ Fixpoint list_eqb {A B} (eqb : A -> B -> bool) (a : list A) (b : list B) : bool 
   | _, _ => false
   end.
 
+(** model call vs backend log entry; for a failed call the log's count is what the backend stored before failing *)
 Definition ocall_eqb (a b : ocall) : bool :=
   let '(o1, l1, n1, e1) := a in let '(o2, l2, n2, e2) := b in
-  (o1 =? o2)%Z && (l1 =? l2)%nat && (n1 =? n2)%nat && oerr_eqb e1 e2.
+  (o1 =? o2)%Z && (l1 =? l2)%nat && (match e2 with Some _ => true | None => (n1 =? n2)%nat end) && oerr_eqb e1 e2.
 
 Definition ocall_of (c : ccall) : ocall := (c_off c, c_len c, c_n c, c_err c).
 (** the backend of a read does not see the io.EOF the client makes of an empty reply *)
@@ -53,6 +68,16 @@ Definition agrees (c : c11case) : bool :=
       | CRet t e => negb panicked && (N.of_nat t =? n)%N && oerr_eqb e err
       | CPanic => panicked
       | CFuel => false
+      end
+  | CBigW msize cs _ _ lenp off tape _ n err calls _ _
+  | CBigR msize cs _ _ lenp off _ _ _ _ tape n err calls _ =>
+      let tape' := map (fun '(k, e) => (N.to_nat k, e)) tape in
+      let '((out, cl), _) := chunk tape_fn (N.to_nat cs) tape' (N.to_nat lenp) off in
+      (cs =? payload_of msize)%N &&
+      list_eqb (fun (a : ccall) '(p, l, o) => (N.of_nat (c_pos a) =? p)%N && (N.of_nat (c_len a) =? l)%N && (c_off a =? o)%Z) cl calls &&
+      match out with
+      | CRet t e => (N.of_nat t =? n)%N && oerr_eqb e err
+      | _ => false
       end
   | CWrite msize cs p off base file0 tape n err calls wstart window size_after =>
       let '((out, cl), st) := write_at (N.to_nat cs) p off (rf_of_seg base file0) tape in
@@ -88,7 +113,11 @@ Definition calls_ok (cs : nat) (off : Z) (lenp : nat) (calls : list ocall) : boo
     match calls with [(o, l, _, _)] => (o =? off)%Z && (l =? 0)%nat | _ => false end
   else match calls with [] => false | _ => calls_wf cs off lenp calls end.
 
-Definition sum_n (calls : list ocall) : nat := fold_right (fun '(_, _, k, _) a => (k + a)%nat) 0%nat calls.
+Definition sum_n (calls : list ocall) : nat :=
+  fold_right (fun '(_, _, k, e) a => match e with None => (k + a)%nat | Some _ => a end) 0%nat calls.
+(** bytes a failing last request stored before it failed (backend log) *)
+Definition stored_by_failure (calls : list ocall) : nat :=
+  match last calls (0%Z, 0%nat, 0%nat, None) with (_, _, k, Some _) => k | _ => 0%nat end.
 Definition last_err (calls : list ocall) : option cerr :=
   match last calls (0%Z, 0%nat, 0%nat, None) with (_, _, _, e) => e end.
 Definition all_full (calls : list ocall) : bool :=
@@ -101,9 +130,21 @@ Definition property_holds (c : c11case) : bool :=
       let csn := N.to_nat cs in
       calls_ok csn off (length p) calls &&
       (n =? sum_n calls)%nat && oerr_eqb err (last_err calls) &&
-      (* the file holds exactly p[:n] at off *)
-      list_eqb N.eqb (firstn n (skipn (Z.to_nat (off - wstart)) window)) (firstn n p) &&
+      (* the file holds exactly p[:n] at off (p[:n+k] when the failing last request stored k bytes before failing) *)
+      (let x := (n + stored_by_failure calls)%nat in
+       list_eqb N.eqb (firstn x (skipn (Z.to_nat (off - wstart)) window)) (firstn x p)) &&
       (if all_full calls then (n =? length p)%nat && oerr_eqb err None else true)
+  | CBigW _ _ a c lenp off _ stored n _ _ wstart window =>
+      let x := (N.to_nat n + N.to_nat stored)%nat in
+      (n <=? lenp)%N &&
+      list_eqb N.eqb (firstn x (skipn (Z.to_nat (off - wstart)) window)) (firstn x (pattern a c lenp))
+  | CBigR _ _ a c lenp off base fa fc flen _ n err _ buf_after =>
+      let nn := N.to_nat n in
+      (n <=? lenp)%N && (base <=? off)%Z && (off + Z.of_nat nn <=? base + Z.of_N flen)%Z &&
+      list_eqb N.eqb (firstn nn buf_after) (firstn nn (skipn (Z.to_nat (off - base)) (pattern fa fc flen))) &&
+      list_eqb N.eqb (skipn nn buf_after) (skipn nn (pattern a c lenp)) &&
+      (if oerr_eqb err (Some CEOF) then (n <? lenp)%N else true) &&
+      (if (n =? 0)%N && (0 <? lenp)%N then negb (oerr_eqb err None) else true)
   | CRead _ cs p0 off base file0 _ n err calls buf_after =>
       let csn := N.to_nat cs in
       let lenp := length p0 in
